@@ -46,10 +46,25 @@ Exprs ==
   \cup {G("two", <<N(1), N(2)>>), G("two", <<N(2), N(1)>>), G("three", <<N(1), N(2), N(3)>>), G("two", <<G("two", <<N(1), N(2)>>), N(3)>>)}
   \cup {[k |-> "arr", es |-> <<N(1), N(2), N(3)>>], [k |-> "arr", es |-> <<N(2), [k |-> "arr", es |-> <<N(3), N(1)>>]>>]}
   \cup {G("typeof", <<N(1)>>), G("to_string", <<N(2)>>)}
-Prog(e) == Prelude \o <<Shout(20, e)>>
+\* operands that CHANGE the array another operand of the same expression reads (`w[w.pop()]`): the array operand is
+\* evaluated first and is a copy, so the expression sees the array as it was
+Make(id, x, e) == [k |-> "make", id |-> id, d |-> 10 * id, n |-> x, site |-> 0, e |-> e]
+W == Var("w")
+Prelude2 == <<Make(30, "w", [k |-> "arr", es |-> <<Num(40), Num(80), Num(8)>>]),
+              Def(31, "shrink", <<>>, <<ExprS(32, M(W, "pop", <<>>)), Ret(33, Num(8))>>),
+              Def(34, "grow", <<>>, <<ExprS(35, M(W, "push", <<Num(160)>>)), Ret(36, Num(12))>>),
+              Def(37, "swap", <<>>, <<[k |-> "set", id |-> 38, n |-> "w", site |-> 0, e |-> [k |-> "arr", es |-> <<Num(4)>>]], Ret(39, Num(0))>>)>>
+SelfExprs ==
+  {Idx(W, M(W, "pop", <<>>)), Idx(W, G("shrink", <<>>)), Idx(W, G("grow", <<>>)), Idx(W, G("swap", <<>>)),
+   Bin("add", M(W, "len", <<>>), M(W, "pop", <<>>)), Bin("add", M(W, "pop", <<>>), M(W, "len", <<>>)),
+   Bin("add", Idx(W, Num(8)), G("shrink", <<>>)), Bin("add", G("shrink", <<>>), Idx(W, Num(4))),
+   G("two", <<Idx(W, Num(8)), G("shrink", <<>>)>>), G("two", <<G("grow", <<>>), Idx(W, Num(12))>>),
+   [k |-> "arr", es |-> <<W, G("shrink", <<>>), W>>], M(W, "join", <<G("to_string", <<G("shrink", <<>>)>>)>>),
+   Idx(Idx([k |-> "arr", es |-> <<W>>], G("swap", <<>>)), Num(8))}
+Prog(e) == IF e \in SelfExprs THEN Prelude \o Prelude2 \o <<Shout(20, e), Shout(21, W)>> ELSE Prelude \o <<Shout(20, e)>>
 VARIABLES prog, m, fuel, hist
 vars == <<prog, m, fuel, hist>>
-Init == \E e \in Exprs : prog = S!Resolve(Prog(e)) /\ m = Init0(prog, NoSkip) /\ fuel = 600 /\ hist = <<>>
+Init == \E e \in Exprs \cup SelfExprs : prog = S!Resolve(Prog(e)) /\ m = Init0(prog, NoSkip) /\ fuel = 600 /\ hist = <<>>
 Next == /\ m.st = "run" /\ fuel > 0 /\ m' = Step(m) /\ fuel' = fuel - 1 /\ prog' = prog
         /\ hist' = IF m'.e # <<>> THEN Append(hist, m'.e) ELSE hist
 Spec == Init /\ [][Next]_vars
